@@ -802,7 +802,7 @@ def failed_kernel_bind(rng):
         else:
             addr = isotp.Address(M.Mixed_29bits, target_address=0x10, source_address=0x20, address_extension=0x99)
         sock = isotp.socket()
-        fk = sock._socket if hasattr(sock, '_socket') else sock.real_socket()
+        fk = fake_kernel.CREATED[-1]       # the kernel socket the wrapper has just created
         orig_bind = fk.bind
         state = {'fail': True}
 
